@@ -267,19 +267,12 @@ struct Schedule
 		{
 			const tm result(now.get_tm());
 
-			//cout >> now << ' ' >> (today + _start) << ' ' >> (today + _end) << ' ' << result.tm_wday << endl;
+			// position within the week (from Sunday 00:00 local) of now and of both ends of the window
+			const Tickval::ticks wnow(result.tm_wday * Tickval::day + (now.get_ticks() - today.get_ticks())),
+				wstart(_start_day * Tickval::day + _start.get_ticks()), wend(_end_day * Tickval::day + _end.get_ticks());
 
-			if (!prev)
-			{
-				if ( ((_start_day > _end_day && (result.tm_wday >= _start_day || result.tm_wday <= _end_day))
-					|| (_start_day < _end_day && result.tm_wday >= _start_day && result.tm_wday <= _end_day))
-					&& now.in_range(today + _start, today + _end))
-						active = true;
-			}
-			else if ( ((_start_day > _end_day && (result.tm_wday < _start_day && result.tm_wday > _end_day))
-					  || (_start_day < _end_day && result.tm_wday >= _end_day))
-						 && now > today + _end)
-					active = false;
+			active = wstart <= wend ? wstart <= wnow && wnow <= wend	// window within one week
+				: wstart <= wnow || wnow <= wend;								// window wraps around the end of the week
 		}
 
 		return active;
